@@ -9,7 +9,7 @@ RULE = ("generated schemas (objects, interfaces incl. interface-implements-inter
         "documents valid by construction (nested selections, aliases, arguments of every input type as literals and "
         "variables, named and inline fragments on abstract types, overlapping mergeable fields through several fragment "
         "paths, @skip/@include, custom directives, variable defaults, queries/mutations/subscriptions, introspection) and "
-        "the same with ONE rule-targeted mutation (33 operators) in the reachable part; plus a stream of fragment-free "
+        "the same with ONE rule-targeted mutation (34 operators) in the reachable part; plus a stream of fragment-free "
         "documents with repeated fields for the merge model. A case is distinct by the hash of its line and non-trivial "
         "when the document contains a fragment on an abstract type or a variable, or is a mutant (merge stream: the "
         "model changed the document).")
@@ -61,6 +61,12 @@ def classify(case, detail):
                 k = "directive-required-argument-unchecked"
             elif r in ("value", "var-default-value") and NULL_ITEM.search(f["op"]):
                 k = "null-item-in-non-null-list"
+            elif r == "frag-unique":
+                k = "duplicate-fragment-name-ignored"
+            elif r == "merge" and "/typename" in f["op"]:
+                k = "typename-excluded-from-merging"
+            elif r == "merge" and "interface-vs-unrelated-object" in f["op"]:
+                k = "interface-vs-unrelated-object-not-compared"
             elif r == "merge" and ENUM.search(f["op"]):
                 k = "enum-fields-not-compared"
             elif r == "merge" and (COMPOSITE.search(f["op"]) or "composite-conflict" in detail):
